@@ -1,17 +1,229 @@
 /-
-  C01 — Bigtable: reads reflect exactly the mutations applied.
-  (statements only; helper lemmas live in Emu/Proofs)
+  C01 — Bigtable: reads reflect exactly the mutations applied (data-model equivalence).
+
+  The data model is stated on `Row.cellsOf r fam qual` (the cells of one column, newest first):
+  one law per mutation kind says which cells the column holds afterwards.  `RowInv` is the
+  well-formedness invariant (family names and qualifiers occur once, one cell per timestamp in
+  descending order); it is kept by every mutation and by the scrub that precedes every store, and
+  under it scrubbing is invisible to lookups, so what is read back is what the laws prescribe.
 -/
+import Emu.Proofs.BtRows
 import Emu.Bt.Server
 
 namespace Emu.Props.C01
-open Emu Emu.Bt
+open Emu Emu.Bt Emu.Proofs.BtRow Emu.Proofs.BtInv Emu.Proofs.BtRows
 
-/-- A mutation list with an invalid element leaves the store unchanged (MutateRow reports an
-    error and `mutateRow` returns no new store). -/
-theorem mutateRow_error_unchanged (sch : Schema) (now : Int) (rows : Rows) (k : Bytes)
-    (ms : List Mutation) (h : applyMutations sch now (rows.getOrCreate k) ms = none) :
-    mutateRow sch now rows k ms = none := by
+/-! #### (1) the data-model laws -/
+
+/-- SetCell: the column holds the new cell and every old cell with a different timestamp — i.e.
+    one cell per (family, qualifier, timestamp) holding the last value written; `-1` means the
+    server's clock in whole milliseconds.  No other column changes. -/
+theorem setCell_law (sch : Schema) (now : Int) (r r' : Row) (fam q : Bytes) (ts : Int) (v : Bytes)
+    (h : applyMutation sch now r (.setCell fam q ts v) = some r') (hwf : StrictDesc (r.cellsOf fam q)) :
+    (∀ x, x ∈ r'.cellsOf fam q ↔ x = ⟨resolveTs now ts, v, []⟩ ∨ (x ∈ r.cellsOf fam q ∧ x.ts ≠ resolveTs now ts)) ∧
+    (∀ f' q', (f' ≠ fam ∨ q' ≠ q) → r'.cellsOf f' q' = r.cellsOf f' q') ∧
+    StrictDesc (r'.cellsOf fam q) := by
+  simp only [applyMutation] at h
+  split at h
+  · cases h
+  · split at h
+    · cases h
+    · cases h
+      refine ⟨?_, ?_, ?_⟩
+      · intro x; rw [Row.cellsOf_setCells_self]; exact mem_appendOrReplace _ _ hwf x
+      · intro f' q' hne; exact Row.cellsOf_setCells_other r fam q f' q' _ hne
+      · rw [Row.cellsOf_setCells_self]; exact appendOrReplace_desc _ _ hwf
+
+/-- DeleteFromColumn: exactly the cells whose timestamp lies in `[s, e)` (`e = 0`: unbounded;
+    no range: all of them) are removed from that column; no other column changes. -/
+theorem deleteFromColumn_law (sch : Schema) (now : Int) (r r' : Row) (fam q : Bytes) (hasRange : Bool)
+    (s e : Int) (h : applyMutation sch now r (.deleteFromColumn fam q hasRange s e) = some r') :
+    (r'.cellsOf fam q = if hasRange then (r.cellsOf fam q).filter (fun c => !inDeleteRange s e c.ts) else []) ∧
+    (∀ f' q', (f' ≠ fam ∨ q' ≠ q) → r'.cellsOf f' q' = r.cellsOf f' q') := by
+  simp only [applyMutation] at h
+  split at h
+  · cases h
+  · split at h
+    · cases h
+    · cases hf : r.getFamily fam with
+      | none =>
+        simp only [hf] at h; cases h
+        have : r.cellsOf fam q = [] := by simp [Row.cellsOf, hf]
+        refine ⟨by rw [this]; cases hasRange <;> simp, fun _ _ _ => rfl⟩
+      | some f =>
+        simp only [hf] at h
+        cases hc : f.getColumn q with
+        | none =>
+          simp only [hc] at h; cases h
+          have : r.cellsOf fam q = [] := by simp [Row.cellsOf, hf, hc]
+          refine ⟨by rw [this]; cases hasRange <;> simp, fun _ _ _ => rfl⟩
+        | some c =>
+          simp only [hc] at h; cases h
+          exact ⟨Row.cellsOf_setCells_self r fam q _, fun f' q' hne => Row.cellsOf_setCells_other r fam q f' q' _ hne⟩
+
+/-- DeleteFromFamily: every column of that family becomes empty; other families are untouched. -/
+theorem deleteFromFamily_law (sch : Schema) (now : Int) (r r' : Row) (fam : Bytes)
+    (h : applyMutation sch now r (.deleteFromFamily fam) = some r') :
+    (∀ q, r'.cellsOf fam q = []) ∧ (∀ f' q', f' ≠ fam → r'.cellsOf f' q' = r.cellsOf f' q') := by
+  simp only [applyMutation] at h
+  split at h
+  · cases h
+  · cases h
+    refine ⟨?_, ?_⟩
+    · intro q
+      rw [row_cellsOf_eq]
+      simp only [Row.getFamily]
+      rw [find?_modifyFirst_self (fun f : Family => f.name == fam) (fun f : Family => { f with cols := [] }) (fun _ => rfl)]
+      cases r.fams.find? (fun f => f.name == fam) <;> simp [Family.cellsOf, Family.getColumn]
+    · intro f' q' hne
+      rw [row_cellsOf_eq, row_cellsOf_eq]
+      simp only [Row.getFamily]
+      rw [find?_modifyFirst_other (fun f : Family => f.name == fam) (fun f : Family => f.name == f')
+        (fun f : Family => { f with cols := [] }) (fun _ => rfl)]
+      intro x hx
+      have e : x.name = fam := by simpa using hx
+      rw [e]; exact _root_.beq_false_of_ne (fun e' => hne e'.symm)
+
+/-- DeleteFromRow: nothing is left. -/
+theorem deleteFromRow_law (sch : Schema) (now : Int) (r r' : Row)
+    (h : applyMutation sch now r .deleteFromRow = some r') : ∀ f q, r'.cellsOf f q = [] := by
+  simp only [applyMutation] at h; cases h
+  intro f q; simp [Row.cellsOf, Row.getFamily]
+
+/-! #### (2) what the API defines as invalid is answered with an error -/
+
+theorem setCell_invalid (sch : Schema) (now : Int) (r : Row) (fam q : Bytes) (ts : Int) (v : Bytes)
+    (h : sch.has fam = false ∨ validTimestamp (resolveTs now ts) = false) :
+    applyMutation sch now r (.setCell fam q ts v) = none := by
+  simp only [applyMutation]
+  cases h with
+  | inl h => simp [h]
+  | inr h => simp [h]
+
+theorem deleteFromColumn_invalid (sch : Schema) (now : Int) (r : Row) (fam q : Bytes) (s e : Int)
+    (h : sch.has fam = false ∨ validDeleteRange s e = false) :
+    applyMutation sch now r (.deleteFromColumn fam q true s e) = none := by
+  simp only [applyMutation]
+  cases h with
+  | inl h => simp [h]
+  | inr h => simp [h]
+
+theorem deleteFromFamily_unknown (sch : Schema) (now : Int) (r : Row) (fam : Bytes) (h : sch.has fam = false) :
+    applyMutation sch now r (.deleteFromFamily fam) = none := by
+  simp [applyMutation, h]
+
+/-- which timestamps are valid: non-negative, at most the maximum, whole milliseconds -/
+theorem validTimestamp_iff (ts : Int) :
+    validTimestamp ts = true ↔ (0 ≤ ts ∧ ts ≤ Generated.maxValidMilliSeconds ∧ ts % 1000 = 0) := by
+  simp only [validTimestamp, Generated.minValidMilliSeconds, Bool.and_eq_true, decide_eq_true_eq, and_assoc]
+  constructor
+  · intro h; exact ⟨of_decide_eq_true h.1, h.2⟩
+  · intro h; exact ⟨decide_eq_true h.1, h.2⟩
+
+/-- an inverted (or empty) delete range is invalid -/
+theorem inverted_range_invalid (s e : Int) (h : s ≥ e) (he : e ≠ 0) : validDeleteRange s e = false := by
+  simp [validDeleteRange, h, he]
+
+/-- A mutation list with an invalid element at any position fails as a whole … -/
+theorem invalid_element_fails_request (sch : Schema) (now : Int) (r r1 : Row) (ms1 ms2 : List Mutation) (m : Mutation)
+    (h1 : applyMutations sch now r ms1 = some r1) (hm : applyMutation sch now r1 m = none) :
+    applyMutations sch now r (ms1 ++ m :: ms2) = none := by
+  induction ms1 generalizing r with
+  | nil => simp [applyMutations] at h1; subst h1; simp [applyMutations, hm]
+  | cons x xs ih =>
+    simp only [applyMutations, List.cons_append] at h1 ⊢
+    cases hx : applyMutation sch now r x with
+    | none => simp [hx] at h1
+    | some rx => simp only [hx] at h1 ⊢; exact ih rx h1
+
+/-- … and then MutateRow changes nothing (it returns no new store). -/
+theorem failed_request_changes_nothing (sch : Schema) (now : Int) (rows : Rows) (k : Bytes) (ms : List Mutation)
+    (h : applyMutations sch now (rows.getOrCreate k) ms = none) : mutateRow sch now rows k ms = none := by
   simp [mutateRow, h]
+
+/-- MutateRows: an entry whose mutations fail gets a non-OK status and leaves the store as it
+    was before that entry; the other entries are applied in order. -/
+theorem mutateRows_failed_entry (sch : Schema) (now : Int) (rows : Rows) (k : Bytes) (ms : List Mutation)
+    (es : List (Bytes × List Mutation)) (h : mutateRow sch now rows k ms = none) :
+    mutateRows sch now rows ((k, ms) :: es) =
+      ((mutateRows sch now rows es).1, false :: (mutateRows sch now rows es).2) := by
+  simp [mutateRows, h]
+
+/-! #### (3) stored rows stay well formed, for every program -/
+
+theorem mutateRow_keeps_wellformed (sch : Schema) (now : Int) (rows rows' : Rows) (k : Bytes) (ms : List Mutation)
+    (hinv : AllInv rows) (hs : Sorted rows) (h : mutateRow sch now rows k ms = some rows') :
+    AllInv rows' ∧ Sorted rows' := by
+  unfold mutateRow at h
+  cases ha : applyMutations sch now (rows.getOrCreate k) ms with
+  | none => simp [ha] at h
+  | some r' =>
+    simp only [ha, Option.some.injEq] at h
+    subst h
+    have := rowInv_applyMutations sch now ms _ r' (getOrCreate_inv rows k hinv) ha
+    exact ⟨allInv_update sch rows r' hinv this, sorted_update sch rows r' hs⟩
+
+theorem mutateRows_keeps_wellformed (sch : Schema) (now : Int) (es : List (Bytes × List Mutation)) (rows : Rows)
+    (hinv : AllInv rows) (hs : Sorted rows) :
+    AllInv (mutateRows sch now rows es).1 ∧ Sorted (mutateRows sch now rows es).1 := by
+  induction es generalizing rows with
+  | nil => exact ⟨hinv, hs⟩
+  | cons e es ih =>
+    obtain ⟨k, ms⟩ := e
+    simp only [mutateRows]
+    cases hm : mutateRow sch now rows k ms with
+    | none => simp only; exact ih rows hinv hs
+    | some rows1 =>
+      simp only
+      have := mutateRow_keeps_wellformed sch now rows rows1 k ms hinv hs hm
+      exact ih rows1 this.1 this.2
+
+/-! #### (4) what is stored, and what a later read sees -/
+
+/-- After a successful MutateRow the row is stored scrubbed — or not at all if no cell is left —
+    and no other row changes. -/
+theorem mutateRow_stores (sch : Schema) (now : Int) (rows rows' : Rows) (k : Bytes) (ms : List Mutation) (r' : Row)
+    (ha : applyMutations sch now (rows.getOrCreate k) ms = some r') (hk : r'.key = k)
+    (h : mutateRow sch now rows k ms = some rows') :
+    rows'.get k = (if (scrubRow sch r').fams.isEmpty then none else some (scrubRow sch r')) ∧
+    ∀ k', k' ≠ k → rows'.get k' = rows.get k' := by
+  simp only [mutateRow, ha, Option.some.injEq] at h
+  subst h
+  subst hk
+  exact ⟨get_update_self sch rows r', fun k' hk' => get_update_other sch rows r' k' hk'⟩
+
+/-- Scrubbing (which precedes every store and every read) does not change any lookup in a family
+    of the schema, and hides families that are not in the schema. -/
+theorem scrub_invisible (sch : Schema) (r : Row) (h : RowInv r) (fam q : Bytes) :
+    (scrubRow sch r).cellsOf fam q = if sch.has fam then r.cellsOf fam q else [] :=
+  cellsOf_scrubRow sch r h fam q
+
+/-- Shape of every row handed to a reader: each family once and in the schema, no empty family,
+    no empty column, columns in strictly ascending qualifier order, cells strictly descending. -/
+theorem read_shape (sch : Schema) (r : Row) (h : RowInv r) :
+    KeysNodup (·.name) (scrubRow sch r).fams ∧
+    (∀ f ∈ (scrubRow sch r).fams, sch.has f.name = true ∧ f.cols ≠ [] ∧
+        f.cols.Pairwise (fun a b => a.qual < b.qual) ∧
+        ∀ c ∈ f.cols, c.cells ≠ [] ∧ StrictDesc c.cells) := by
+  have hi := rowInv_scrubRow sch r h
+  refine ⟨hi.fams, ?_⟩
+  intro f hf
+  have hs := scrubRow_shape sch r f hf
+  exact ⟨hs.1, hs.2.1, scrubRow_cols_sorted sch r h f hf, fun c hc => ⟨hs.2.2 c hc, hi.cells f hf c hc⟩⟩
+
+/-- An unfiltered read of a stored row returns it scrubbed, and omits it iff no cell is left. -/
+theorem unfiltered_read (sch : Schema) (rnd : Int) (r : Row) (hne : r.fams ≠ []) :
+    emitRow sch rnd .absent r =
+      if (scrubRow sch r).fams.isEmpty then none else some (scrubRow sch r) := by
+  have : r.fams.isEmpty = false := by cases hf : r.fams <;> simp_all
+  simp [emitRow, this, filterRow]
+
+/-- Non-vacuity: two versions, an overwrite of one, then a ranged delete. -/
+example :
+    let sch : Schema := [([102], none)]
+    ((applyMutations sch 0 ⟨[97], []⟩
+        [.setCell [102] [113] 1000 [1], .setCell [102] [113] 2000 [2], .setCell [102] [113] 1000 [3],
+         .deleteFromColumn [102] [113] true 2000 0]).map (·.cellsOf [102] [113]))
+      = some [⟨1000, [3], []⟩] := by decide
 
 end Emu.Props.C01
